@@ -325,7 +325,7 @@ func (l *packetListener) delta(b []byte) error {
 
 	l.failureDetector.Report(header.NodeID)
 
-	l.state.ApplyDelta(delta)
+	l.state.ApplyKnownDelta(delta)
 
 	return nil
 }
